@@ -76,6 +76,117 @@ impl SlotSpec {
             sku: g("sku"),
         }
     }
+    /// The same record filled in by the harness's own exact evaluation of the definitions
+    /// (i128 rationals) -- used where TLC's 32-bit integers cannot hold the values (long streams).
+    /// The two are cross-checked on every behaviour where both exist.
+    pub fn from_data(data: Vec<i64>, p: usize) -> SlotSpec {
+        let n = data.len() as u64;
+        let bag = Bag(&data);
+        let nan = SpecVal::NaN;
+        let zero = SpecVal::R(Rat::int(0));
+        if n == 0 {
+            let mut cm = vec![SpecVal::R(Rat::int(1)), zero];
+            let mut sm = vec![zero, zero, SpecVal::R(Rat::int(1))];
+            for _ in 2..=p {
+                cm.push(nan);
+            }
+            for _ in 3..=p {
+                sm.push(nan);
+            }
+            return SlotSpec { n, data, mean: nan, pvar: nan, svar: nan, vom: nan, err: nan, skew: nan, kurt: nan, cm, sm, ssk: nan, sku: nan };
+        }
+        if n > 64 {
+            return SlotSpec::from_data_f64(data, p);
+        }
+        let ni = n as i128;
+        let m2 = bag.central_moment(2);
+        let root = |sign: i32, r: Rat| if sign == 0 || r.is_zero() { SpecVal::R(Rat::int(0)) } else { SpecVal::Root(sign, r) };
+        let svar = if n < 2 { nan } else { SpecVal::R(m2.mul(Rat::new(ni, ni - 1))) };
+        let vomr = if n < 2 { Rat::int(0) } else { m2.mul(Rat::new(ni, ni - 1)).div(Rat::int(ni)) };
+        let m3 = bag.central_moment(3);
+        let m4 = bag.central_moment(4);
+        let skew = if m3.is_zero() { zero } else { root(m3.sign(), m3.mul(m3).div(m2.powi(3))) };
+        let kurt = if m4.is_zero() { zero } else { SpecVal::R(m4.div(m2.mul(m2)).sub(Rat::int(3))) };
+        let mut cm = vec![SpecVal::R(Rat::int(1)), zero];
+        let mut sm = vec![SpecVal::R(Rat::int(ni)), zero, SpecVal::R(Rat::int(1))];
+        for q in 2..=p {
+            cm.push(SpecVal::R(bag.central_moment(q as u32)));
+        }
+        for q in 3..=p {
+            sm.push(if m2.is_zero() {
+                SpecVal::Panic
+            } else {
+                let c = bag.central_moment(q as u32);
+                if q % 2 == 0 { SpecVal::R(c.div(m2.powi(q as u32 / 2))) } else { root(c.sign(), c.mul(c).div(m2.powi(q as u32))) }
+            });
+        }
+        let ssk = if n == 1 {
+            zero
+        } else if m2.is_zero() {
+            nan
+        } else if n == 2 {
+            zero
+        } else {
+            root(m3.sign(), Rat::new(ni * (ni - 1), (ni - 2) * (ni - 2)).mul(m3.mul(m3).div(m2.powi(3))))
+        };
+        let sku = if n < 4 || m2.is_zero() {
+            nan
+        } else {
+            let g2 = m4.div(m2.mul(m2)).sub(Rat::int(3));
+            SpecVal::R(Rat::new(ni - 1, (ni - 2) * (ni - 3)).mul(g2.mul(Rat::int(ni + 1)).add(Rat::int(6))))
+        };
+        SlotSpec {
+            n,
+            mean: SpecVal::R(bag.mean()),
+            pvar: SpecVal::R(m2),
+            svar,
+            vom: SpecVal::R(vomr),
+            err: root(1, vomr),
+            skew,
+            kurt,
+            cm,
+            sm,
+            ssk,
+            sku,
+            data,
+        }
+    }
+    /// Long streams: exact central moments (i128 rationals), derived statistics formed in f64.
+    fn from_data_f64(data: Vec<i64>, p: usize) -> SlotSpec {
+        let n = data.len() as u64;
+        let nf = n as f64;
+        let bag = Bag(&data);
+        let m: Vec<f64> = (0..=p.max(4)).map(|q| if q < 2 { (1 - q as i64) as f64 } else { bag.central_moment(q as u32).to_f64() }).collect();
+        let f = SpecVal::F;
+        let constant = bag.is_constant();
+        let zero = SpecVal::R(Rat::int(0));
+        let svar = m[2] * nf / (nf - 1.0);
+        let skew = if constant { zero } else { f(m[3] / m[2].powf(1.5)) };
+        let kurt = if constant { zero } else { f(m[4] / (m[2] * m[2]) - 3.0) };
+        let mut cm = vec![SpecVal::R(Rat::int(1)), zero];
+        let mut sm = vec![SpecVal::R(Rat::int(n as i128)), zero, SpecVal::R(Rat::int(1))];
+        for q in 2..=p {
+            cm.push(if constant { zero } else { f(m[q]) });
+        }
+        for q in 3..=p {
+            sm.push(if constant { SpecVal::Panic } else { f(m[q] / m[2].sqrt().powi(q as i32)) });
+        }
+        SlotSpec {
+            n,
+            mean: SpecVal::R(bag.mean()),
+            pvar: if constant { zero } else { f(m[2]) },
+            svar: if constant { zero } else { f(svar) },
+            vom: if constant { zero } else { f(svar / nf) },
+            err: if constant { zero } else { f((svar / nf).sqrt()) },
+            skew,
+            kurt,
+            cm,
+            sm,
+            ssk: if constant { SpecVal::NaN } else { f((nf * (nf - 1.0)).sqrt() / (nf - 2.0) * m[3] / m[2].powf(1.5)) },
+            sku: if constant { SpecVal::NaN } else { f((nf - 1.0) / ((nf - 2.0) * (nf - 3.0)) * ((nf + 1.0) * (m[4] / (m[2] * m[2]) - 3.0) + 6.0)) },
+            data,
+        }
+    }
     /// highest order the specification run carried
     pub fn p(&self) -> usize {
         self.cm.len() - 1
@@ -100,7 +211,7 @@ impl Want {
 }
 
 /// Lattice-level quantities needed for the envelopes, computed once per slot.
-struct Ctx<'a> {
+pub struct Ctx<'a> {
     spec: &'a SlotSpec,
     n: f64,
     constant: bool,
@@ -113,7 +224,7 @@ struct Ctx<'a> {
 }
 
 impl<'a> Ctx<'a> {
-    fn new(spec: &'a SlotSpec) -> Ctx<'a> {
+    pub fn new(spec: &'a SlotSpec) -> Ctx<'a> {
         let bag = Bag(&spec.data);
         let n = spec.data.len() as f64;
         if spec.data.is_empty() {
@@ -121,7 +232,13 @@ impl<'a> Ctx<'a> {
         }
         let var = bag.central_moment(2).to_f64();
         let sigma_v = var.sqrt();
-        let abs_cm: Vec<f64> = (0..=10u32).map(|p| bag.abs_central_sum(p).to_f64() / n).collect();
+        // tolerance scales only: exact for short data, f64 for long streams (i128 would overflow)
+        let abs_cm: Vec<f64> = if spec.data.len() <= 64 {
+            (0..=10u32).map(|p| bag.abs_central_sum(p).to_f64() / n).collect()
+        } else {
+            let mean = bag.mean().to_f64();
+            (0..=10i32).map(|p| spec.data.iter().map(|&x| (x as f64 - mean).abs().powi(p)).sum::<f64>() / n).collect()
+        };
         let m4 = bag.central_moment(4).to_f64();
         Ctx {
             spec,
@@ -196,6 +313,24 @@ fn expected_beyond(acc: Acc, s: &SlotSpec) -> Option<SpecVal> {
 }
 
 fn crosscheck(s: &SlotSpec, rep: &mut Report) {
+    // the harness's exact evaluator (used alone on long streams) must agree with the
+    // specification on the complete accessor table wherever the specification has values
+    {
+        let own = SlotSpec::from_data(s.data.clone(), s.p().min(4));
+        let pairs = [(own.mean, s.mean), (own.pvar, s.pvar), (own.svar, s.svar), (own.vom, s.vom), (own.err, s.err), (own.skew, s.skew), (own.kurt, s.kurt), (own.ssk, s.ssk), (own.sku, s.sku)];
+        for (i, (a, b)) in pairs.iter().enumerate() {
+            if a != b {
+                rep.tool_errors.push(format!("exact evaluator disagrees with the specification on accessor #{i} for {:?}: {:?} vs {:?}", s.data, a, b));
+            }
+            rep.crosschecks += 1;
+        }
+        for q in 0..own.sm.len().min(s.sm.len()) {
+            if own.sm[q] != s.sm[q] {
+                rep.tool_errors.push(format!("exact evaluator disagrees with the specification on standardized moment {q} for {:?}", s.data));
+            }
+            rep.crosschecks += 1;
+        }
+    }
     if s.data.is_empty() {
         return;
     }
@@ -514,6 +649,41 @@ fn apply<T: MomT>(w: &mut World<T>, op: &Op, e: &Embedding, roundtrip: bool) {
     }
 }
 
+
+/// Compare every public accessor of `obj` with the specification values in `spec`.
+#[allow(clippy::too_many_arguments)]
+pub fn check_final<T: MomT>(obj: &T, spec: &SlotSpec, cx: &Ctx, e: &Embedding, addonly: bool, want: &Want, rep: &mut Report, h: &Value, s: usize, with_data: bool) {
+    let mut obs = Vec::new();
+    obj.observe(&mut obs);
+    for (acc, o) in obs.iter().copied() {
+        let exp = match expected_for(acc, spec).or_else(|| expected_beyond(acc, spec)) {
+            Some(x) => x,
+            None => continue,
+        };
+        if want.is("C17") {
+            rep.evaluations += 1;
+            if let Some(what) = check_c17::<T>(acc, o, exp, cx, e) {
+                viol::<T>(rep, "C17", e, h, s, &acc.name(), what, if with_data { json!({"data": spec.data}) } else { json!({}) });
+            }
+            continue;
+        }
+        let tg = tags::<T>(acc, addonly, spec.n, cx.constant, exp);
+        // C19 (parallel collection) is decided on the fold/reduce-shaped histories by the
+        // same comparisons as C02 (merge == concatenation)
+        let tagprop = if want.is("C19") { "C02" } else { want.prop.as_str() };
+        if !tg.contains(&tagprop) && !(want.is("C19") && tg.contains(&"C11")) {
+            continue;
+        }
+        rep.evaluations += 1;
+        if let Some((what, mut detail)) = check_obs::<T>(acc, o, exp, cx, e, addonly, rep) {
+            if with_data {
+                detail["data"] = json!(spec.data);
+            }
+            viol::<T>(rep, &want.prop, e, h, s, &acc.name(), what, detail);
+        }
+    }
+}
+
 /// Replay one emitted state on one type under one embedding.
 fn replay_one<T: MomT>(h: &Value, ops: &[Op], specs: &[SlotSpec], cxs: &[Ctx], e: &Embedding, want: &Want, rep: &mut Report) {
     let k = specs.len();
@@ -582,36 +752,7 @@ fn replay_one<T: MomT>(h: &Value, ops: &[Op], specs: &[SlotSpec], cxs: &[Ctx], e
     // ---- final observations against the specification
     if want.envelope_family() || want.is("C17") || want.is("C11") {
         for s in 0..k {
-            let mut obs = Vec::new();
-            w.slots[s].observe(&mut obs);
-            let spec = &specs[s];
-            let cx = &cxs[s];
-            let addonly = w.addonly[s];
-            for (acc, o) in obs.iter().copied() {
-                let exp = match expected_for(acc, spec).or_else(|| expected_beyond(acc, spec)) {
-                    Some(x) => x,
-                    None => continue,
-                };
-                if want.is("C17") {
-                    rep.evaluations += 1;
-                    if let Some(what) = check_c17::<T>(acc, o, exp, cx, e) {
-                        viol::<T>(rep, "C17", e, h, s, &acc.name(), what, json!({"data": spec.data}));
-                    }
-                    continue;
-                }
-                let tg = tags::<T>(acc, addonly, spec.n, cx.constant, exp);
-                // C19 (parallel collection) is decided on the fold/reduce-shaped histories by the
-                // same comparisons as C02 (merge == concatenation)
-                let tagprop = if want.is("C19") { "C02" } else { want.prop.as_str() };
-                if !tg.contains(&tagprop) && !(want.is("C19") && tg.contains(&"C11")) {
-                    continue;
-                }
-                rep.evaluations += 1;
-                if let Some((what, mut detail)) = check_obs::<T>(acc, o, exp, cx, e, addonly, rep) {
-                    detail["data"] = json!(spec.data);
-                    viol::<T>(rep, &want.prop, e, h, s, &acc.name(), what, detail);
-                }
-            }
+            check_final::<T>(&w.slots[s], &specs[s], &cxs[s], e, w.addonly[s], want, rep, h, s, true);
         }
     }
     // ---- C18: the same history with a serde round trip at every checkpoint
